@@ -347,7 +347,7 @@ def _run_impl(line, extra=None):
         return v if st == "ok" else ("err TIMEOUT" if st == "timeout" else "err " + v)
     if op == "gen":
         # translated definitions (DswModel.Gen.*): the real function on the same wire values
-        fn = getattr(OP, t[1], None) or getattr(SW, t[1])
+        fn = getattr(OP, t[1], None) or getattr(SW, t[1], None) or getattr(GZ, t[1])
         args = [pv_dec(x) for x in t[2:]]
         import contextlib
         import io
